@@ -63,6 +63,11 @@ pub(crate) fn yield_point(id: &'static str) {
 	}
 }
 
+/// A scheduling point for harness-side thread programs (same semantics as the internal ones).
+pub fn yield_point_public(id: &'static str) {
+	yield_point(id);
+}
+
 #[inline]
 pub(crate) fn acquire_point(id: &'static str, is_locked: &dyn Fn() -> bool) {
 	if managed() {
